@@ -1,3 +1,174 @@
 import EpsicProofs.FieldArith
+import Mathlib.Data.List.Perm.Basic
+import Mathlib.Algebra.BigOperators.Group.List.Basic
+import Mathlib.Analysis.SpecialFunctions.Trigonometric.Basic
+/-! # C12 — weighted-mean accumulators are independent of insertion order and grouping
+
+`MeanEst.accumulate` is the sequential `operator+=` fold; `MeanEst.evalTree` an arbitrary binary
+merge tree.  All statements are for every finite sequence (no length bound), every value and
+every variance (including zero-variance entries, which carry no weight). -/
+set_option linter.unusedSectionVars false
+set_option linter.unusedVariables false
 namespace Epsic.C12
+open Epsic
+variable {K : Type} [Field K] [DecidableEq K]
+
+@[ext] theorem MeanEst.ext' {a b : MeanEst K} (h1 : a.normVal = b.normVal) (h2 : a.invVar = b.invVar) : a = b := by
+  cases a; cases b; simp_all
+
+/-! ## the accumulator is a commutative monoid under `merge`, and insertion is a merge -/
+theorem merge_comm (a b : MeanEst K) : MeanEst.merge a b = MeanEst.merge b a := by
+  ext <;> simp [MeanEst.merge, add_comm]
+theorem merge_assoc (a b c : MeanEst K) : MeanEst.merge (MeanEst.merge a b) c = MeanEst.merge a (MeanEst.merge b c) := by
+  ext <;> simp [MeanEst.merge, add_assoc]
+theorem merge_empty (a : MeanEst K) : MeanEst.merge a MeanEst.empty = a := by
+  ext <;> simp [MeanEst.merge, MeanEst.empty]
+theorem empty_merge (a : MeanEst K) : MeanEst.merge MeanEst.empty a = a := by
+  ext <;> simp [MeanEst.merge, MeanEst.empty]
+theorem addEst_eq_merge (m : MeanEst K) (d : Est K) : MeanEst.addEst m d = MeanEst.merge m (MeanEst.ofEst d) := by
+  simp only [MeanEst.addEst, MeanEst.ofEst, MeanEst.empty]
+  by_cases h : d.var = 0
+  · simp [h, MeanEst.merge]
+  · ext <;> simp [h, MeanEst.merge]
+
+theorem foldl_addEst (l : List (Est K)) (m : MeanEst K) :
+    l.foldl MeanEst.addEst m = MeanEst.merge m (MeanEst.accumulate l) := by
+  induction l generalizing m with
+  | nil => simp [MeanEst.accumulate, merge_empty]
+  | cons d ds ih =>
+    simp only [List.foldl_cons, MeanEst.accumulate]
+    rw [ih, ih (MeanEst.addEst MeanEst.empty d), addEst_eq_merge, addEst_eq_merge, empty_merge, merge_assoc]
+
+/-- grouping: accumulating a concatenation is merging the two partial accumulators -/
+theorem accumulate_append (l₁ l₂ : List (Est K)) :
+    MeanEst.accumulate (l₁ ++ l₂) = MeanEst.merge (MeanEst.accumulate l₁) (MeanEst.accumulate l₂) := by
+  simp only [MeanEst.accumulate, List.foldl_append]
+  exact foldl_addEst l₂ _
+theorem accumulate_cons (d : Est K) (l : List (Est K)) :
+    MeanEst.accumulate (d :: l) = MeanEst.merge (MeanEst.ofEst d) (MeanEst.accumulate l) := by
+  have := accumulate_append [d] l
+  simpa [MeanEst.accumulate, MeanEst.ofEst] using this
+
+/-- order: any permutation of the insertions gives the same accumulator -/
+theorem accumulate_perm {l₁ l₂ : List (Est K)} (h : l₁.Perm l₂) : MeanEst.accumulate l₁ = MeanEst.accumulate l₂ := by
+  induction h with
+  | nil => rfl
+  | cons d _ ih => rw [accumulate_cons, accumulate_cons, ih]
+  | swap a b l =>
+    rw [accumulate_cons, accumulate_cons, accumulate_cons, accumulate_cons, ← merge_assoc, ← merge_assoc,
+      merge_comm (MeanEst.ofEst b)]
+  | trans _ _ ih1 ih2 => exact ih1.trans ih2
+
+/-- every binary merge tree equals the sequential accumulation of its leaves -/
+theorem evalTree_eq (t : MeanEst.Tree K) : MeanEst.evalTree t = MeanEst.accumulate t.leaves := by
+  induction t with
+  | leaf d => simp [MeanEst.evalTree, MeanEst.Tree.leaves, MeanEst.accumulate, MeanEst.ofEst]
+  | node l r ihl ihr => simp only [MeanEst.evalTree, MeanEst.Tree.leaves, accumulate_append, ihl, ihr]
+/-- **all permutations and all merge trees of a multiset of estimates agree** -/
+theorem order_and_grouping_independent (t₁ t₂ : MeanEst.Tree K) (h : t₁.leaves.Perm t₂.leaves) :
+    MeanEst.evalTree t₁ = MeanEst.evalTree t₂ := by
+  rw [evalTree_eq, evalTree_eq, accumulate_perm h]
+
+/-! ## closed form: the inverse-variance weighted average of the entries with non-zero variance -/
+theorem accumulate_normVal (l : List (Est K)) :
+    (MeanEst.accumulate l).normVal = ((l.filter (fun d => d.var ≠ 0)).map (fun d => d.val / d.var)).sum := by
+  induction l with
+  | nil => simp [MeanEst.accumulate, MeanEst.empty]
+  | cons d ds ih =>
+    rw [accumulate_cons]
+    simp only [MeanEst.merge, ih, MeanEst.ofEst, MeanEst.addEst, MeanEst.empty]
+    by_cases h : d.var = 0
+    · simp [h]
+    · simp [h, div_eq_mul_inv]
+theorem accumulate_invVar (l : List (Est K)) :
+    (MeanEst.accumulate l).invVar = ((l.filter (fun d => d.var ≠ 0)).map (fun d => 1 / d.var)).sum := by
+  induction l with
+  | nil => simp [MeanEst.accumulate, MeanEst.empty]
+  | cons d ds ih =>
+    rw [accumulate_cons]
+    simp only [MeanEst.merge, ih, MeanEst.ofEst, MeanEst.addEst, MeanEst.empty]
+    by_cases h : d.var = 0
+    · simp [h]
+    · simp [h]
+/-- the reported estimate: weighted average and reciprocal of the summed inverse variances -/
+theorem get_weighted_mean (m : MeanEst K) (h : m.invVar ≠ 0) :
+    m.get.val = m.normVal / m.invVar ∧ m.get.var = 1 / m.invVar := by
+  simp [MeanEst.get, h, div_eq_mul_inv]
+/-- an empty accumulator (or one that only saw zero-variance entries) yields zero with zero variance -/
+theorem get_empty : (MeanEst.empty : MeanEst K).get = ⟨0, 0⟩ := by simp [MeanEst.get, MeanEst.empty]
+theorem get_no_weight (m : MeanEst K) (h : m.invVar = 0) : m.get = ⟨0, 0⟩ := by simp [MeanEst.get, h]
+theorem zero_variance_entry_ignored (m : MeanEst K) (d : Est K) (h : d.var = 0) : MeanEst.addEst m d = m := by
+  simp [MeanEst.addEst, h]
+
+/-! ## circular mean: the same order / grouping independence, component-wise -/
+theorem MeanRad.ext' {a b : MeanRad K} (h1 : a.cosine = b.cosine) (h2 : a.sine = b.sine) : a = b := by
+  cases a; cases b; simp_all
+def cosList (l : List (MeanRad.Entry K)) : List (Est K) := l.map (fun e => Est.cosE e.d e.c)
+def sinList (l : List (MeanRad.Entry K)) : List (Est K) := l.map (fun e => Est.sinE e.d e.s)
+theorem rad_accumulate_components (l : List (MeanRad.Entry K)) :
+    (MeanRad.accumulate l).cosine = MeanEst.accumulate (cosList l) ∧
+    (MeanRad.accumulate l).sine = MeanEst.accumulate (sinList l) := by
+  have : ∀ (m : MeanRad K), (l.foldl MeanRad.addEntry m).cosine = (cosList l).foldl MeanEst.addEst m.cosine ∧
+      (l.foldl MeanRad.addEntry m).sine = (sinList l).foldl MeanEst.addEst m.sine := by
+    induction l with
+    | nil => intro m; simp [cosList, sinList]
+    | cons e es ih => intro m; simpa [cosList, sinList, MeanRad.addEntry] using ih (MeanRad.addEntry m e)
+  exact this MeanRad.empty
+theorem rad_accumulate_append (l₁ l₂ : List (MeanRad.Entry K)) :
+    MeanRad.accumulate (l₁ ++ l₂) = MeanRad.merge (MeanRad.accumulate l₁) (MeanRad.accumulate l₂) := by
+  apply MeanRad.ext'
+  · simp only [MeanRad.merge, (rad_accumulate_components _).1, cosList, List.map_append]; exact accumulate_append _ _
+  · simp only [MeanRad.merge, (rad_accumulate_components _).2, sinList, List.map_append]; exact accumulate_append _ _
+theorem rad_accumulate_perm {l₁ l₂ : List (MeanRad.Entry K)} (h : l₁.Perm l₂) :
+    MeanRad.accumulate l₁ = MeanRad.accumulate l₂ := by
+  apply MeanRad.ext'
+  · rw [(rad_accumulate_components _).1, (rad_accumulate_components _).1]; exact accumulate_perm (h.map _)
+  · rw [(rad_accumulate_components _).2, (rad_accumulate_components _).2]; exact accumulate_perm (h.map _)
+
+/-- adding a multiple of 2π to an input changes neither leaf, hence nothing -/
+theorem entry_two_pi_invariant (θ v : ℝ) (k : ℤ) :
+    (⟨⟨θ + k * (2 * Real.pi), v⟩, Real.cos (θ + k * (2 * Real.pi)), Real.sin (θ + k * (2 * Real.pi))⟩ : MeanRad.Entry ℝ).c
+      = Real.cos θ ∧
+    (⟨⟨θ + k * (2 * Real.pi), v⟩, Real.cos (θ + k * (2 * Real.pi)), Real.sin (θ + k * (2 * Real.pi))⟩ : MeanRad.Entry ℝ).s
+      = Real.sin θ := by
+  constructor
+  · exact Real.cos_add_int_mul_two_pi θ k
+  · exact Real.sin_add_int_mul_two_pi θ k
+/-- the accumulator only sees an angle through its cosine, sine and variance -/
+theorem addEntry_depends_on_leaves (m : MeanRad K) (e₁ e₂ : MeanRad.Entry K)
+    (hc : e₁.c = e₂.c) (hs : e₁.s = e₂.s) (hv : e₁.d.var = e₂.d.var) : MeanRad.addEntry m e₁ = MeanRad.addEntry m e₂ := by
+  simp [MeanRad.addEntry, Est.cosE, Est.sinE, hc, hs, hv]
+
+/-! ## the direction clause: stated in full, refuted on the code as it stands -/
+/-- the full statement: the result's direction is that of the weighted vector sum
+`(Σ cos θ/σ², Σ sin θ/σ²)` (expressed without `atan2`: the two vectors are positively proportional) -/
+def DirectionClause (l : List (MeanRad.Entry K)) (resultCos resultSin : K) : Prop :=
+  let sx := (l.map (fun e => e.c / e.d.var)).sum
+  let sy := (l.map (fun e => e.s / e.d.var)).sum
+  resultCos * sy = resultSin * sx
+/-- witness: angles `0` and `π/2`, unit variances (leaves `(1,0)` and `(0,1)`).  Each informative
+component has propagated variance `(1 - 1²)·1 = 0` and is dropped; both accumulators keep only a
+zero value, so the mean is reported as `0 ± 0` although the vector sum points along `π/4`. -/
+theorem direction_counterexample :
+    let l : List (MeanRad.Entry ℚ) := [⟨⟨0, 1⟩, 1, 0⟩, ⟨⟨0, 1⟩, 0, 1⟩]
+    (∀ at2, (MeanRad.accumulate l).get at2 = ⟨0, 0⟩) ∧
+    ((l.map (fun e => e.c / e.d.var)).sum = 1 ∧ (l.map (fun e => e.s / e.d.var)).sum = 1) := by
+  refine ⟨fun at2 => ?_, ?_⟩
+  · simp [MeanRad.accumulate, MeanRad.addEntry, MeanRad.empty, MeanEst.empty, MeanEst.addEst, Est.cosE, Est.sinE,
+      MeanRad.get]
+  · simp
+/-- what does hold: the two accumulators are the inverse-variance weighted means of the cosines
+and of the sines with their *propagated* variances -/
+theorem direction_partial (l : List (MeanRad.Entry K)) :
+    (MeanRad.accumulate l).cosine.normVal
+      = (((cosList l).filter (fun d => d.var ≠ 0)).map (fun d => d.val / d.var)).sum ∧
+    (MeanRad.accumulate l).sine.normVal
+      = (((sinList l).filter (fun d => d.var ≠ 0)).map (fun d => d.val / d.var)).sum := by
+  rw [(rad_accumulate_components l).1, (rad_accumulate_components l).2]
+  exact ⟨accumulate_normVal _, accumulate_normVal _⟩
+
+/-! non-vacuity -/
+example : (MeanEst.accumulate [(⟨1, 1⟩ : Est ℚ), ⟨3, 1/2⟩, ⟨7, 0⟩]).get = ⟨7/3, 1/3⟩ := by
+  simp [MeanEst.accumulate, MeanEst.addEst, MeanEst.empty, MeanEst.get]; norm_num
+
 end Epsic.C12
